@@ -402,6 +402,11 @@ def history_harnesses(p: Program, s: Struct, max_pairs=12):
 def builder_harnesses(p: Program, s: Struct):
     if not s.builder_expected():
         return []
+    if any(f.array and f.count > 64 for f in s.fields):
+        # the step of a 128-element array calls the stubbed with_ 128 times: 600-720 s for one harness on this machine (measured on
+        # `ar128b`), i.e. at the harness time limit.  Such builders are left to the INV / CONST stand-ins; the functions then show up
+        # under emitted_but_not_under_contract in the evidence
+        return []
     hs = []
     S, R = s.name, s.rawname
     pre = f"h_{p.pid}_{S}"
